@@ -377,6 +377,32 @@ def almost_empty_roads(M, rec, rng, g, reps):
                           dict(case, nonfinite=bad[:5]))
 
 
+def compile_without_a_sampling_time(M, rec, rng, reps):
+    """A stepped network whose origins are all ideal (no queue, nothing that needs T) compiled WITH flow outputs and without
+    handing `T` to `to_function` again (the stepped expressions carry it): compiling succeeds at every level."""
+    NE, CE = drive.engines(M)
+    for it in range(reps):
+        st = ("SX", "MX")[it % 2]
+        N_ = rng.choice((1, 2, 3))
+        net = M.Network().add_path((M.Node(), M.Link(N_, 2, 1.0, 180.0, 33.5, 102.0, 1.867), M.Node(), M.Link(2, 2, 1.0, 180.0, 33.5, 102.0, 1.867), M.Node()),
+                                   origin=M.Origin(), destination=M.Destination())
+        eng = CE(st)
+        try:
+            net.step(engine=eng, T=10 / 3600, tau=18 / 3600, eta=60.0, kappa=40.0)
+        except Exception as e:
+            _exc(rec, "step", st, e, {"network": "ideal origin, two links"})
+            continue
+        for compact in (0, 1, 2):
+            rec.count("compilations_without_a_sampling_time")
+            try:
+                F = eng.to_function(net, compact=compact, more_out=True)
+                rec.count("compilations_ok")
+                if F.get_free():
+                    rec.violation(f"{PROP}:compiled function has free symbols ({st})", {"compact": compact})
+            except Exception as e:
+                _exc(rec, f"to_function(compact={compact},more_out=True) without T on a network of ideal origins", st, e, {"compact": compact})
+
+
 def run(M, rec, tier, seed, k, n):
     W.USER_KINDS["prob"] = 0.12  # user-defined origin / link kinds (README "Extensions")
     np.seterr(all="ignore")
@@ -424,6 +450,7 @@ def run(M, rec, tier, seed, k, n):
     if not child:
         unrestricted_ramps(M, rec, rng, g, 24 if tier == "quick" else 200)
         almost_empty_roads(M, rec, rng, g, 24 if tier == "quick" else 200)
+        compile_without_a_sampling_time(M, rec, rng, 8 if tier == "quick" else 40)
 
 
     if k == 0 and not child:
